@@ -380,6 +380,36 @@ def run_unit(unit, rec):
                 est = dreye.ReceptorEstimator(filters, domain=1.0)
                 est.register_system(sources, ub=ub)
                 rec.trans(2)
+                # absolute gamut at a fixed total capture = volume of the slice of the capture zonotope (origin included: lb = 0)
+                if m >= 3:
+                    Aabs = np.einsum("id,kd->ik", filters, sources) - 0.5 * (filters[:, :1] * sources[None, :, 0] + filters[:, -1:] * sources[None, :, -1])
+                    ubv = np.broadcast_to(np.asarray(ub, dtype=float), (n,))
+                    Vz = AL.lattice(np.zeros(n), ubv, (0.0, 1.0)) @ Aabs.T
+                    sz = Vz.sum(1)
+                    smin_nz = float(np.min(sz[sz > 1e-12]))
+                    for c_ in (0.5 * smin_nz, 0.35 * float(sz.max())):
+                        rec.path()
+                        rec.trans()
+                        case = dict(shape=[m, n], metric="volume", at_l1=c_, relative=False, fraction=False)
+                        try:
+                            g = float(est.compute_gamut(fraction=False, metric="volume", at_l1=c_, relative=False))
+                        except Exception as e:  # noqa
+                            _v(rec, "e", dict(family="estimator-volume", api="ReceptorEstimator.compute_gamut", **exc_sig(e)), "compute_gamut(at_l1=%.4g) raised %r" % (c_, e), case)
+                            continue
+                        Z = [v for v, s_ in zip(Vz, sz) if abs(s_ - c_) <= 1e-12]
+                        for a_ in range(len(Vz)):
+                            for b_ in range(len(Vz)):
+                                if sz[a_] < c_ < sz[b_]:
+                                    Z.append(Vz[a_] + (c_ - sz[a_]) / (sz[b_] - sz[a_]) * (Vz[b_] - Vz[a_]))
+                        ref = section_volume(np.array(Z) / c_ / math.sqrt(2.0))
+                        if ref is None:
+                            rec.count("section-oracle-undecided")
+                            continue
+                        rec.distinct(("est-section", m, n, np.ndim(ub), c_))
+                        okv = abs(g - ref) <= 1e-9 * (1 + ref)
+                        rec.outcome("estimator-section/%s" % ("ok" if okv else "bad"))
+                        if not okv:
+                            _v(rec, "e", dict(family="estimator-volume", api="ReceptorEstimator.compute_gamut", what="section-volume"), "absolute gamut at total capture %.4g is %.10g, the slice of the capture zonotope has volume %.10g" % (c_, g, ref), case, observed=g, expected=ref)
                 for metric, at_l1, relative in itertools.product(("width", "volume"), (None, 2.0), (False, True)):
                     if m == 2 and metric == "volume":
                         pass
